@@ -1,6 +1,7 @@
 // Contract file for unit c17_js_string (properties C17, C09).
 // Specification text for /verif; function bodies at `//@@` markers are extracted from /repo.
 use vstd::prelude::*;
+use std::collections::HashMap;
 verus! {
 
 //@INCLUDE json_spec.inc
@@ -251,17 +252,29 @@ pub proof fn lemma_array_roundtrip(strs: Seq<Seq<char>>, n: int)
 
 //@@ push_js_string
 
-// ---- shims for the lifted loop body of RegisterCtx::to_array (rule E3) ----
+// ---- shims for RegisterCtx::to_array ----
 // the two trait methods the body calls; what they return is the (assumed identifier-charset) name
-pub trait Locale: Copy {
+pub trait Locale: Copy + Eq + core::hash::Hash {
+    type TranslationUnitId: TranslationUnitId;
     spec fn name(self) -> Seq<char>;
     fn as_str(self) -> (r: &'static str) ensures r@ == self.name();
 }
-pub trait TranslationUnitId: Copy {
+pub trait TranslationUnitId: Copy + Eq + core::hash::Hash {
     spec fn id_name(self) -> Option<Seq<char>>;
     fn to_str(self) -> (r: Option<&'static str>)
         ensures r is Some <==> self.id_name() is Some, r matches Some(x) ==> x@ == self.id_name()->0;
 }
+/// T1: model of `Arc<Mutex<T>>` as the body uses it: `lock()` hands out the protected value
+/// (a poisoned lock -- another thread panicked while registering -- is outside the model)
+pub struct Shared<T>(pub T);
+impl<T> Shared<T> {
+    pub fn lock(&self) -> (r: Option<&T>) ensures r == Some(&self.0) { Some(&self.0) }
+}
+// T1: copied from fetch_translations.rs, `Arc<Mutex<..>>` -> `Shared<..>`
+pub type RegisterCtxMap<L, Id> = HashMap<(L, Id), &'static [&'static str]>;
+pub struct RegisterCtx<L: Locale>(pub Shared<RegisterCtxMap<L, L::TranslationUnitId>>);
+pub assume_specification<'a, 'b>[ <String as From<&'a str>>::from ](s: &'b str) -> (r: String)
+    ensures r@ == s@;
 pub assume_specification<T>[ std::mem::replace::<T> ](dest: &mut T, src: T) -> (r: T)
     ensures r == *old(dest), *final(dest) == src;
 
@@ -301,7 +314,74 @@ pub proof fn lemma_values_parse(vals: Seq<&'static str>)
     assert(v.subrange(0, v.len() as int) =~= v);
 }
 
-//@@ emit_unit
+/// the first n units of a listing, the first without and the others with a leading comma
+pub open spec fn units_text<L: Locale>(kv: Seq<(&(L, L::TranslationUnitId), &&'static [&'static str])>, n: int) -> Seq<char>
+    decreases n
+{
+    if n <= 0 { Seq::empty() }
+    else { units_text(kv, n - 1) + unit_text(n == 1, kv[n - 1].0.0, kv[n - 1].0.1, kv[n - 1].1@) }
+}
+/// C17: the whole script: one assignment of one array literal
+pub open spec fn script_text<L: Locale>(kv: Seq<(&(L, L::TranslationUnitId), &&'static [&'static str])>) -> Seq<char> {
+    lit("window.__LEPTOS_I18N_TRANSLATIONS = [") + units_text(kv, kv.len() as int) + lit("];")
+}
+/// kv lists the registered units: each entry is a registered unit with its strings, no entry twice, as many
+/// entries as units (hence every registered unit exactly once and nothing else)
+pub open spec fn is_listing<L: Locale>(m: Map<(L, L::TranslationUnitId), &'static [&'static str]>, kv: Seq<(&(L, L::TranslationUnitId), &&'static [&'static str])>) -> bool {
+    &&& kv.no_duplicates()
+    &&& kv.len() == m.dom().len()
+    &&& forall|i: int| 0 <= i < kv.len() ==> m.contains_key(*(#[trigger] kv[i]).0) && m[*kv[i].0] == *kv[i].1
+}
+
+// ---- the same text in the order the writer builds it: every step appends to the buffer so far (left-nested);
+// the loop invariants are stated in this form, the lemmas below show it is `prefix + units_text` ----
+pub open spec fn comma_unless(pre: Seq<char>, first: bool) -> Seq<char> { if first { pre } else { pre.push(',') } }
+pub open spec fn joined_app(pre: Seq<char>, vals: Seq<&'static str>, n: int) -> Seq<char>
+    decreases n
+{
+    if n <= 0 { pre } else { comma_unless(joined_app(pre, vals, n - 1), n == 1) + sstr(vals[n - 1]@) }
+}
+pub open spec fn unit_head<L: Locale, I: TranslationUnitId>(pre: Seq<char>, first: bool, locale: L, id: I) -> Seq<char> {
+    let a = comma_unless(pre, first) + lit("{\"locale\":\"") + locale.name();
+    match id.id_name() {
+        Some(n) => a + lit("\",\"id\":\"") + n + lit("\",\"values\":["),
+        None => a + lit("\",\"id\":null,\"values\":["),
+    }
+}
+pub open spec fn unit_app<L: Locale, I: TranslationUnitId>(pre: Seq<char>, first: bool, locale: L, id: I, vals: Seq<&'static str>) -> Seq<char> {
+    joined_app(unit_head(pre, first, locale, id), vals, vals.len() as int) + lit("]}")
+}
+pub open spec fn units_app<L: Locale>(pre: Seq<char>, kv: Seq<(&(L, L::TranslationUnitId), &&'static [&'static str])>, n: int) -> Seq<char>
+    decreases n
+{
+    if n <= 0 { pre } else { unit_app(units_app(pre, kv, n - 1), n == 1, kv[n - 1].0.0, kv[n - 1].0.1, kv[n - 1].1@) }
+}
+pub proof fn lemma_joined_app(pre: Seq<char>, vals: Seq<&'static str>, n: int)
+    requires 0 <= n <= vals.len(),
+    ensures joined_app(pre, vals, n) =~= pre + joined(vals, n),
+    decreases n
+{
+    if n > 0 { lemma_joined_app(pre, vals, n - 1); }
+}
+pub proof fn lemma_unit_app<L: Locale, I: TranslationUnitId>(pre: Seq<char>, first: bool, locale: L, id: I, vals: Seq<&'static str>)
+    ensures unit_app(pre, first, locale, id, vals) =~= pre + unit_text(first, locale, id, vals),
+{
+    lemma_joined_app(unit_head(pre, first, locale, id), vals, vals.len() as int);
+}
+pub proof fn lemma_units_app<L: Locale>(pre: Seq<char>, kv: Seq<(&(L, L::TranslationUnitId), &&'static [&'static str])>, n: int)
+    requires 0 <= n <= kv.len(),
+    ensures units_app(pre, kv, n) =~= pre + units_text(kv, n),
+    decreases n
+{
+    if n > 0 {
+        lemma_units_app(pre, kv, n - 1);
+        lemma_unit_app(units_app(pre, kv, n - 1), n == 1, kv[n - 1].0.0, kv[n - 1].0.1, kv[n - 1].1@);
+    }
+}
+
+impl<L: Locale> RegisterCtx<L> {
+//@@ to_array
+}
 
 } // verus!
 fn main() {}
